@@ -86,6 +86,30 @@ def one(rec, hub, seed, tier, i):
             s.compute()
 
 
+def nearly_unsolvable_label_case(rec, hub, rng):
+    """A stock-driven model (forward substitution) in which one product leaves almost entirely within the period it enters: of its
+    inflow only a share of ~1e-13 ... 1e-17 is still there at the period's end, so the inflow behind its (ordinary) stock is larger
+    by that factor.  The cohort identities hold for it like for every other label (judged by the monitors on compute())."""
+    fd = hub.fd
+    n = int(rng.integers(4, 9))
+    step = float(rng.choice([1, 1, 2, 5]))
+    tdim = fd.Dimension(letter="t", name="time", items=[2000 + int(step) * j for j in range(n)])
+    pdim = fd.Dimension(letter="p", name="product", items=["car", "newspaper", "bicycle"][: int(rng.integers(2, 4))], dtype=str)
+    dims = fd.DimensionSet(dim_list=[tdim, pdim])
+    k = len(pdim.items)
+    mean = rng.uniform(2.0, 5.0, size=k) * step
+    std = mean * 0.3
+    short = int(rng.integers(0, k))
+    z = float(rng.uniform(7.4, 8.4))  # survival share at the end of the first period: 1e-13 ... 1e-17
+    mean[short] = 0.05 * step
+    std[short] = (0.5 * step - mean[short]) / z
+    stock = np.cumsum(rng.uniform(1.0, 10.0, size=dims.shape), axis=0) + 5.0
+    s = fd.StockDrivenDSM(dims=dims, stock=fd.StockArray(dims=dims, values=stock), solver="manual", time_letter="t",
+                          lifetime_model=fd.NormalLifetime(dims=dims, time_letter="t", mean=fd.FlodymArray(dims=dims[("p",)], values=mean), std=fd.FlodymArray(dims=dims[("p",)], values=std)))
+    with dsm.quiet(), np.errstate(all="ignore"):
+        s.compute()
+
+
 def run(rec, hub, tier, seed, shard, nshards, budget):
     from ..oracles import bystand
 
@@ -101,6 +125,9 @@ def run(rec, hub, tier, seed, shard, nshards, budget):
             one(rec, hub, seed, tier, i)
         except Exception as e:
             rec.violation(S.M09, "compute-raised-on-a-valid-configuration", {"exc": repr(e)[:300]})
+        if k % 30 == 11:
+            rec.set_case(driver="c09.nearly", seed=seed, tier=tier, shard=shard, nshards=nshards, idx=i)
+            nearly_unsolvable_label_case(rec, hub, case_nprng(seed, "c09.nearly", 0, i))
 
 
 def replay(rec, hub, case):
@@ -109,4 +136,7 @@ def replay(rec, hub, case):
     bystand.register(hub, "C09")
     S.register_compute(hub, PROPS)
     rec.set_case(**case)
+    if case["driver"] == "c09.nearly":
+        nearly_unsolvable_label_case(rec, hub, case_nprng(case["seed"], "c09.nearly", 0, case["idx"]))
+        return
     one(rec, hub, case["seed"], case.get("tier", "quick"), case["idx"])
